@@ -159,6 +159,7 @@ type ev struct {
 	code     uint32
 	data     []byte
 	off      int
+	encoded  []byte // the block the relay's encoder produces for this event (mirror encoder), nil = unknown
 }
 
 type pendingBlock struct {
@@ -236,6 +237,19 @@ type Exec struct {
 	// encoded a block.
 	updPending [2]bool
 	stale      [2]bool
+	// menc[d] mirrors the HPACK encoder of relay d: the same field lists in the same order, the same
+	// table sizes at the same moments, hence the same bytes. A block that reaches the receiver with
+	// other bytes than the relay's encoder produced for it was damaged inside the relay; only a block
+	// that arrives intact and still decodes differently is explained by the receiver's table state
+	// (F08b). mencOK[d] is cleared when the mirror cannot follow (an opaque block it cannot read, a
+	// length that disagrees with the relay's).
+	menc    [2]*hpack.Encoder
+	mencBuf [2]*bytes.Buffer
+	mencOK  [2]bool
+	lastEnc *ev
+	// failures of the open findings are reported by the closing op `drained`, so that within a case
+	// they cannot hide a different failure that comes later
+	deferred *failure
 	twoUpdatesIn [2]bool // endpoint d's latest block began with two size updates
 	skipRest     bool    // the rest of the case is not sent to the model (case abandoned)
 	quirkNow     bool    // ... in this step, because of the decoder quirk: the step's verdicts are void
@@ -261,6 +275,10 @@ func NewExec(prop string) *Exec {
 		x.mirror[e].SetAllowedMaxDynamicTableSize(1<<32 - 1)
 		x.encBuf[e] = &bytes.Buffer{}
 		x.enc[e] = hpack.NewEncoder(x.encBuf[e])
+		x.mencBuf[e] = &bytes.Buffer{}
+		x.menc[e] = hpack.NewEncoder(x.mencBuf[e])
+		x.menc[e].SetMaxDynamicTableSizeLimit(1<<32 - 1)
+		x.mencOK[e] = true
 		x.sTab[e] = NewShadowTab(4096)
 		x.sLimit[e] = 4096
 	}
@@ -281,12 +299,28 @@ func (x *Exec) result(line string, fails []failure, modelOp string) core.Result 
 	}
 	for _, f := range fails {
 		mine := strings.HasPrefix(f.sig, strings.ToLower(x.prop)+":") || f.sig == "panic" || f.sig == "hang"
+		if mine && openFinding[f.sig] {
+			if x.deferred == nil {
+				g := f
+				g.msg = "(reported at the end of the case) " + g.msg
+				x.deferred = &g
+			}
+			continue
+		}
 		if mine {
 			r.Fail, r.Sig = f.msg, f.sig
 			break
 		}
 	}
 	return r
+}
+
+// openFinding: signatures of the open findings of C08 (known_findings.json). They are kept until the
+// closing op so that, within one case, a known finding never hides another failure.
+var openFinding = map[string]bool{
+	"c08:hpack-block-out-of-encode-order": true,
+	"c08:hpack-size-update-stale":         true,
+	"c08:zero-priority-dropped":           true,
 }
 
 func epOf(t string) (int, bool) {
@@ -610,6 +644,9 @@ func (x *Exec) Do(op string) core.Result {
 		if len(tabVals) > 0 {
 			x.updPending[1-e] = true // relay 1-e (the one sending to e) announces it with its next block
 		}
+		for _, v := range tabVals {
+			x.menc[1-e].SetMaxDynamicTableSize(v) // relay.updateTableSize, value by value
+		}
 		x.advFrames[e] = append(x.advFrames[e], tabVals)
 		x.ackDue[1-e] = append(x.ackDue[1-e], tabVals) // the relay forwards the frame in this step
 		x.setAllowed(e)
@@ -726,6 +763,14 @@ func (x *Exec) Do(op string) core.Result {
 		}
 	}
 
+	if needEnc && err == nil && x.lastEnc != nil {
+		if got := x.pair.Snapshot(h2.Direction(d)).LastEncodedLen; got != len(x.lastEnc.encoded) {
+			// the mirror encoder disagrees with the relay's about this block: it cannot vouch for bytes
+			core.Count("mirror-encoder-length-disagrees")
+			x.lastEnc.encoded = nil
+			x.mencOK[d] = false
+		}
+	}
 	if needEnc && err == nil {
 		// F08b class: a header block was just encoded on relay d for stream x.lastBlockSid while
 		// a block encoded earlier is still queued on another stream.
@@ -1184,7 +1229,14 @@ func (x *Exec) recvBlock(dir, r int, b *pendingBlockRx, fail func(string, string
 		return line
 	}
 	x.pop(dir, b.sid)
-	if derr != nil || !bytes.Equal(got, h.fields) {
+	intact := true
+	if h.encoded != nil && !bytes.Equal(b.frag, h.encoded) {
+		// independent of the receiver's HPACK state: these are not the bytes the relay's encoder made
+		intact = false
+		core.Count("oracle:header-block-bytes-differ")
+		fail("c08:header-block-damaged", "direction %d stream %d: the header block that arrived (%d bytes, %s) is not the block the relay's HPACK encoder produced for it (%d bytes, %s): it was altered between encoding and sending; the receiver decodes %s, the sender encoded %s", dir, b.sid, len(b.frag), Digest(b.frag), len(h.encoded), Digest(h.encoded), showFields(got), showFields(h.fields))
+	}
+	if intact && (derr != nil || !bytes.Equal(got, h.fields)) {
 		sig := "c08:header-fields-differ"
 		why := ""
 		if x.hazard[dir] {
@@ -1265,13 +1317,32 @@ func (x *Exec) completeBlock(e int) {
 	if p.push {
 		k = 'U'
 	}
-	x.exp[e][p.sid] = append(x.exp[e][p.sid], &ev{kind: k, es: p.es, prio: p.prio, fields: append([]byte{}, fields...), promised: p.promised})
+	n := &ev{kind: k, es: p.es, prio: p.prio, fields: append([]byte{}, fields...), promised: p.promised}
+	x.lastEnc = nil
+	if fs, ok := LitDecode(fields); ok && x.validIn && x.mencOK[e] {
+		x.mencBuf[e].Reset()
+		for _, f := range fs {
+			x.menc[e].WriteField(hpack.HeaderField{Name: f.Name, Value: f.Value})
+		}
+		n.encoded = append([]byte{}, x.mencBuf[e].Bytes()...)
+		x.lastEnc = n
+	} else {
+		x.mencOK[e] = false // the mirror has lost the relay's encoder state for good
+	}
+	x.exp[e][p.sid] = append(x.exp[e][p.sid], n)
 }
 
 // drained: oracle-only closing op; after the generator opened every window, everything either
 // endpoint sent must have been delivered.
-func (x *Exec) drained() core.Result {
-	r := core.Result{Impl: "ok", SkipModel: true}
+func (x *Exec) drained() (r core.Result) {
+	r = core.Result{Impl: "ok", SkipModel: true}
+	if x.deferred != nil && x.prop == "C08" {
+		defer func() {
+			if r.Fail == "" {
+				r.Fail, r.Sig = x.deferred.msg, x.deferred.sig
+			}
+		}()
+	}
 	if x.dead {
 		return r
 	}
